@@ -167,6 +167,7 @@ func Containers() []Named {
 			pn := &n
 			return OuterIface{Any: []int{1}, PP: &pn, Next: &OuterIface{Any: "leaf"}}
 		}()), N("OuterIface zero", OuterIface{}),
+		N("OuterLower", func() OuterLower { a, _, _ := NewOuterLower(); return a }()), N("OuterLowerPtr", func() OuterLowerPtr { _, b, _ := NewOuterLower(); return b }()), N("OuterLowerPtr nil", func() OuterLowerPtr { _, _, c := NewOuterLower(); return c }()),
 		N("local T #1", localT1()), N("local T #2", localT2()), N("*local T #3", localT3()),
 		N("map[KeyStr]int", map[KeyStr]int{"a": 1, "1": 2, "true": 3, "1.5": 4}), N("map[KeyInt]string", map[KeyInt]string{1: "one", 0: "zero"}), N("map[KeyStr]int nil", map[KeyStr]int(nil)),
 		N("map[KeyStringer]int", map[KeyStringer]int{"a": 1, "<a>": 2}), N("[]OuterIface", []OuterIface{{Any: []int{1}}, {Any: map[string]int{"x": 1}}, {Any: "s"}}), N("[2]OuterIface", [2]OuterIface{{Any: []int{1}}, {Any: []int{1}}}),
@@ -181,7 +182,7 @@ func Keys() []Named {
 		N("'a'", "a"), N("'k'", "k"), N("'1'", "1"), N("'0'", "0"), N("'Name'", "Name"), N("'hidden'", "hidden"), N("'ValueMethod'", "ValueMethod"), N("'PtrMethod'", "PtrMethod"),
 		N("'Add'", "Add"), N("'Variadic'", "Variadic"), N("'Join'", "Join"), N("'Fmt'", "Fmt"), N("'Two'", "Two"), N("'Nothing'", "Nothing"), N("'NilFunc'", "NilFunc"), N("'Fn'", "Fn"), N("'TakesPtr'", "TakesPtr"),
 		N("'TakesIface'", "TakesIface"), N("'TakesFloat'", "TakesFloat"), N("'TakesSlice'", "TakesSlice"), N("'Concat'", "Concat"), N("'hiddenMethod'", "hiddenMethod"), N("'missing'", "missing"), N("''", ""),
-		N("'Items'", "Items"), N("'Inner'", "Inner"), N("'Any'", "Any"), N("'Attrs'", "Attrs"), N("'A'", "A"), N("'B'", "B"), N("'C'", "C"), N("'N'", "N"), N("'Extra'", "Extra"), N("'Hello'", "Hello"), N("'PtrHello'", "PtrHello"), N("'PP'", "PP"), N("'Next'", "Next"), N("KeyStr('a')", KeyStr("a")), N("KeyStringer('a')", KeyStringer("a")), N("OuterIface{slice}", OuterIface{Any: []int{1}}), N("KeyInt(1)", KeyInt(1)), N("'true'", "true"),
+		N("'Items'", "Items"), N("'Inner'", "Inner"), N("'Any'", "Any"), N("'Attrs'", "Attrs"), N("'ID'", "ID"), N("'note'", "note"), N("'innerLower'", "innerLower"), N("'A'", "A"), N("'B'", "B"), N("'C'", "C"), N("'N'", "N"), N("'Extra'", "Extra"), N("'Hello'", "Hello"), N("'PtrHello'", "PtrHello"), N("'PP'", "PP"), N("'Next'", "Next"), N("KeyStr('a')", KeyStr("a")), N("KeyStringer('a')", KeyStringer("a")), N("OuterIface{slice}", OuterIface{Any: []int{1}}), N("KeyInt(1)", KeyInt(1)), N("'true'", "true"),
 		// strings that strconv.ParseFloat accepts but that are no usable index
 		N("'NaN'", "NaN"), N("'nan'", "nan"), N("'Inf'", "Inf"), N("'-Inf'", "-Inf"), N("'+Infinity'", "+Infinity"), N("'1e400'", "1e400"), N("'0x1'", "0x1"), N("'0x1p-2'", "0x1p-2"),
 		N("'1e0'", "1e0"), N("'1.0'", "1.0"), N("' 1'", " 1"), N("'-0'", "-0"), N("'1_0'", "1_0"),
@@ -285,3 +286,24 @@ type OuterIface struct {
 type KeyStringer string
 
 func (k KeyStringer) String() string { return "<" + string(k) + ">" }
+
+// An exported field promoted through an embedded struct of an unexported type is still exported.
+type innerLower struct {
+	ID   int
+	note string
+}
+
+type OuterLower struct {
+	innerLower
+	Name string
+}
+
+type OuterLowerPtr struct {
+	*innerLower
+	Name string
+}
+
+// NewOuterLower returns the three shapes (value, pointer, nil pointer).
+func NewOuterLower() (OuterLower, OuterLowerPtr, OuterLowerPtr) {
+	return OuterLower{innerLower{7, "n"}, "ol"}, OuterLowerPtr{&innerLower{8, "n"}, "olp"}, OuterLowerPtr{nil, "olnil"}
+}
